@@ -13,6 +13,7 @@
 -/
 import CppUtil.Proofs.EpochHist
 import CppUtil.Gen.Thread
+import CppUtil.Props.EpochListsThm
 
 namespace CppUtil.Props
 open CppUtil CppUtil.Epoch
